@@ -222,9 +222,10 @@ def interpS (v0 : String → Bool) : Nat → List S → SSt → SSt
             | some body => interpS v0 fuel body w
             | none => w                                  -- parser.Close, console.Reset, mu.Lock, …: no output
       | .deferCall _ => w                                -- handled by the caller (`sendQueriesS`)
-      | .other _ src =>
+      | .other g src =>
+          if !evalV v g then w
           -- the one statement with output that is not a plain write: CursorPosition() sends DSR directly
-          if src = "_, col := vx.CursorPosition()" then { w with wire := w.wire ++ (toksOf "\x1b[6n").map .tok }
+          else if src = "_, col := vx.CursorPosition()" then { w with wire := w.wire ++ (toksOf "\x1b[6n").map .tok }
           else if src = "vx.cursorLast.style = vx.userCursorStyle" then { w with clUser := true }
           else if src = "err := vx.openTty(tgts)" then { w with fresh := true }     -- openTty calls newWriter
           else if src = "vx.suspended = true" then { w with suspended := true }
